@@ -384,7 +384,8 @@ def run(rounds=2, big=False, seed=0, only=()):
 
 def replayer(pid, qual, o, repo):
     seed = int(os.environ.get("VERIF_SEED", "0"))
-    r = run(rounds=3, big=False, seed=seed)
+    from .props import SUITES_FOR
+    r = run(rounds=2, big=False, seed=seed, only=SUITES_FOR.get(pid) or [])
     if r.get("mismatch"):
         return dict(kind="scenario: real classes vs independent reference", confirmed=True, failing_scenario=r["mismatch"], scenarios_tried=r.get("count"))
     return dict(kind="scenario: real classes vs independent reference", confirmed=False, scenarios_tried=r.get("count"), error=r.get("error"))
